@@ -34,6 +34,10 @@ def cases(rng, tier):
             yield "ckd %s %d %s" % (spec, idx, prf), "ckd-prv"
             yield "ckd %s %d %s" % (spec, idx + 2 ** 31, prf), "ckd-prv-hardened"
             yield "ckd %s %d %s" % (pub, idx, prf), "ckd-pub"
+            # the request repeated on the SAME parent object: an invalid child must be reported every time
+            pat = rng.choice(["cc", "cd", "dd", "cdd", "dcd"])
+            yield "ckd_retry %s %d %s %s" % (spec, idx, prf, pat), "ckd-prv-retry"
+            yield "ckd_retry %s %d %s %s" % (pub, idx, prf, pat), "ckd-pub-retry"
             yield "master %s %s %s" % (hx(bytes(rng.getrandbits(8) for _ in range(16))), rng.choice("01"), prf), "master"
             # BIP85: the first HMAC calls (derivations) must be valid; use a constant PRF whose halves are both IL
             e = "prf=" + (IL.to_bytes(32, "big") + IL.to_bytes(32, "big")).hex()
@@ -49,7 +53,7 @@ def oracle(line, out):
     tok = line.split(" ")
     op = tok[0]
     v = ok_val(out)
-    prf = tok[-1]
+    prf = tok[3] if op == "ckd_retry" else tok[-1]
     if not prf.startswith("prf="):
         return None
     I = unhex(prf[4:])
@@ -83,6 +87,18 @@ def oracle(line, out):
         if pt == ecdsa.ellipticcurve.INFINITY:
             return None if v is None else "public child at infinity returned"
         return "valid public child refused" if v is None else None
+    if op == "ckd_retry":
+        if v is None:
+            return "request sequence failed as a whole"
+        outs = v.split(" ; ")
+        first = None
+        for j, o in enumerate(outs):
+            single = oracle("ckd %s %s %s" % (tok[1], tok[2], tok[3]), "err" if o == "err" else "ok " + o)
+            if single:
+                return "request #%d on the same parent object: %s" % (j + 1, single)
+        if len(set(outs)) != 1:
+            return "repeating the request on the same parent object gave different answers"
+        return None
     if op == "bip85":
         app = tok[2]
         # with a constant PRF every derivation step sees the same IL: the path derivation itself may fail
